@@ -9,14 +9,17 @@ RULES = {
            "+-1e5, full int64, within 1000 of either limit, random bit-length, months = multiples of 12 at the year limits, huge "
            "day/hour/minute/second counts compensated by the year); (c) all 36 alignment conversions and operator<<. Each tuple is "
            "vetted in 128-bit against the statement's representability bound before the call and then fed to all six civil types, "
-           "also through the 5-, 4-, 3-, 2- and 1-argument constructor forms wherever the omitted fields have their default values. "
+           "also through the 5-, 4-, 3-, 2- and 1-argument constructor forms wherever the omitted fields have their default values; "
+           "(d) a sweep of every year in [-2^29, 2^29) (thorough +-2^32): eight constructions per year that carry across the end of "
+           "February and the year boundary, expected values from the leap rule alone. "
            "Non-trivial = distinct tuple with >= 2 fields out of range (hash set per chunk; chunks are disjoint by construction or "
            "64-bit random).",
     "C05": "per alignment: (a, n) and (a, b) pairs from the C04 mixture plus n = INT64_MIN/MAX, a - INT64_MIN, steps landing on the "
            "representable limits +-2, differences engineered to equal INT64_MIN/MAX +-1, years differing by multiples of 400 +-1, "
            "cycle bases with fixed step panel; representability decided first in 128-bit. Checked: a+n, n+a, a-n, +=, ++/--, "
            "(a+n)-a == n, b+(a-b) == a, all six relational operators vs unit index order, a<b iff a-b<0, cross-alignment "
-           "comparisons vs six-field lexicographic order. Non-trivial = distinct case with |n| > 1000, |year| > 1e5 or a pair.",
+           "comparisons vs six-field lexicographic order; a sweep of every year in [-2^29, 2^29) (thorough +-2^32) with twelve steps, "
+           "differences and comparisons per year across the end of February and the year boundary. Non-trivial = distinct case with |n| > 1000, |year| > 1e5 or a pair.",
     "C17": "every day of the 146097-day cycle x 7 weekdays (weekday, yearday, next_weekday, prev_weekday), replicated at year "
            "offsets 400*k for k in {0,+-1,+-2,-5,-6,+-1000,+-1e9, extremes of int64}, plus random days over int64 years; every day of the years next to 12 powers of two; and a sweep of *every* year "
            "in [-2^30, 2^30) (thorough: [-2^32, 2^32)) with six questions per year around the end of February and the year end, the "
@@ -43,7 +46,7 @@ def run(prop, tier, seed, replay=None):
     res, rc = core.run_monitor(exe, args, build.san_env("asan"), os.path.join(chk.workdir, "out"),
                                timeout=3600 if tier == "thorough" else 900)
     chk.absorb(res, replay_args=dict(monitor="civilmon"))
-    if prop == "C17" and not replay:
+    if not replay:
         # the year sweep runs in an optimised build without sanitizers (header-only arithmetic; 26 G library calls)
         try:
             exe2 = build.build_bin("fast", "civilmon")
@@ -67,8 +70,8 @@ def run(prop, tier, seed, replay=None):
         cov["exhaustive_scope"] = "the 146097-day cycle (as base days); the int64^6 argument space is sampled"
     chk.coverage = cov
     if not replay:
-        need = {"C04": ["C04.base_days", "C04.cross_alignment_conversions", "C04.stream_outputs"],
-                "C05": ["C05.difference_at_int64_limit", "C05.subtract_int64_min", "C05.cross_alignment_comparisons", "C05.base_days"],
+        need = {"C04": ["C04.base_days", "C04.cross_alignment_conversions", "C04.stream_outputs", "C04.year_sweep_years"],
+                "C05": ["C05.difference_at_int64_limit", "C05.subtract_int64_min", "C05.cross_alignment_comparisons", "C05.base_days", "C05.year_sweep_years"],
                 "C17": ["C17.days", "C17.year_sweep_years"]}[prop]
         for k in need:
             if res.stat(k) == 0:
